@@ -78,12 +78,39 @@ RANDOM_OPTS = {
     'hist_ops': ['fire', 'fire', 'tick', 'flush'], 'histlen': (1, 5), 'ext_names': 2, 'p_attach': 1.0,
 }
 RUN_OPTS = dict(RANDOM_OPTS, timeouts=[None, None, 0, 1, 2, 3], hist_ops=['fire'], histlen=(1, 3))
+# waits by name for events that never come, ended by their timeout; the manager is ticked by hand often enough
+NEVER_OPTS = dict(RANDOM_OPTS, timeouts=[None, 0, 1, 2, 3], never_waits=True, hist_ops=['fire', 'tick'], histlen=(1, 4))
+
+
+def never_cases():
+    """a wait by name, with a timeout, for an event that never comes (or comes only after the timeout): the caller gets
+    TimeoutError once and nothing of the wait stays behind"""
+    for tmo, after, late in [(t, a, l) for t in (0, 1, 3) for a in ('ret', 'yield', 'call') for l in (False, True)]:
+        tail = {'ret': [['ret', 7]], 'yield': [['yield', 5], ['ret', 7]],
+                'call': [['call', {'name': 'x2', 'prio': 0, 'flags': 0, 'ch': None}, None], ['ret', 7]]}[after]
+        prog = {'comps': {'1': {'chan': 'a'}},
+                'handlers': {
+                    '1': {'comp': 1, 'names': ['x0'], 'chan': None, 'prio': 0,
+                          'script': {'x0': [['wait', {'name': 'x3', 'prio': 0, 'flags': 0, 'ch': None, 'byname': True}, tmo]] + tail}},
+                    '2': {'comp': 1, 'names': ['x2'], 'chan': None, 'prio': 0, 'script': {'x2': [['ret', 2]]}},
+                    '3': {'comp': 1, 'names': ['x3'], 'chan': None, 'prio': 0, 'script': {'x3': [['ret', 3]]}}},
+                'dyn': []}
+        # a timeout counts iterations of the loop, and an idle loop does not iterate: the manager is stepped by hand
+        hist = [['fire', 1, {'name': 'x0', 'prio': 0, 'flags': 1, 'ch': None}]] + [['rtick', 1]] * 8
+        if late:
+            # the awaited name is fired long after the wait has timed out
+            hist += [['fire', 1, {'name': 'x3', 'prio': 0, 'flags': 0, 'ch': None}]] + [['rtick', 1]] * 3
+        yield prog, hist
 
 
 def gen_random(rnd, quick):
+    yield from never_cases()
     n = 400 if quick else 8000
     for i in range(n):
-        if i % 3 == 2:
+        if i % 5 == 4:
+            prog = kernelgen.gen_program(rnd, NEVER_OPTS)
+            yield prog, kernelgen.gen_history(rnd, NEVER_OPTS, prog) + [['rtick', 1]] * 24
+        elif i % 3 == 2:
             prog = kernelgen.gen_program(rnd, RUN_OPTS)
             h = kernelgen.gen_history(rnd, RUN_OPTS, prog)
             # run the root (component 1 after the initial registration of 2 under 1) in the checking thread
